@@ -44,10 +44,14 @@ Definition guarded_call (ag : bool) (c : call) : Prop := is_affix_call c = false
 Definition updb_ok (ug : bool) (c : call) : Prop := is_updb_call c = false \/ ug = true.
 
 (* RDONLY: every mutating call is refused with GD_E_ACCMODE and nothing changes *)
-Lemma rdonly_inert_l : forall ag ug s c, rw s = false -> guarded_call ag c -> exec ag ug s c = (RAccMode, s).
+Definition seekw_ok (sg : bool) (c : call) : Prop := is_seekw_call c = false \/ sg = true.
+
+Lemma rdonly_inert_l : forall ag ug sg s c, rw s = false -> guarded_call ag c -> seekw_ok sg c ->
+  exec ag ug sg s c = (RAccMode, s).
 Proof.
-  intros ag ug s c Hr Hg. destruct c; simpl; rewrite Hr; simpl; try reflexivity.
-  destruct Hg as [Hg|Hg]; [discriminate|]. subst. reflexivity.
+  intros ag ug sg s c Hr Hg Hs. destruct c; simpl; rewrite Hr; simpl; try reflexivity.
+  - destruct Hg as [Hg|Hg]; [discriminate|]. subst. reflexivity.
+  - destruct Hs as [Hs|Hs]; [discriminate|]. subst. reflexivity.
 Qed.
 
 Lemma bump_all_ok : forall s users s0, unchanged_protected s s0 ->
@@ -64,10 +68,10 @@ Qed.
 
 (* /PROTECT: whatever the call, protected metadata and protected data are unchanged, and
    a call whose region meets a protected part is refused with GD_E_PROTECTED *)
-Lemma protect_respected_l : forall ag ug s c, is_protect_call c = false -> guarded_call ag c -> updb_ok ug c ->
-  unchanged_protected s (snd (exec ag ug s c)).
+Lemma protect_respected_l : forall ag ug sg s c, is_protect_call c = false -> guarded_call ag c -> updb_ok ug c ->
+  unchanged_protected s (snd (exec ag ug sg s c)).
 Proof.
-  intros ag ug s c Hnp Hg Hu.
+  intros ag ug sg s c Hnp Hg Hu.
   destruct c; simpl in *; try discriminate;
   try (repeat match goal with
   | |- context [if ?x then _ else _] => destruct x eqn:?; simpl
@@ -89,9 +93,9 @@ Proof.
   exact H.
 Qed.
 
-Lemma refused_when_protected_put : forall ag ug s f g, rw s = true -> put_leaf f = Some g ->
-  p_dat (prot_of s g) = true -> exec ag ug s (CPutData f) = (RProtected, s).
-Proof. intros ag ug s f g Hr Hl Hp. simpl. rewrite Hr, Hl, Hp. reflexivity. Qed.
+Lemma refused_when_protected_put : forall ag ug sg s f g, rw s = true -> put_leaf f = Some g ->
+  p_dat (prot_of s g) = true -> exec ag ug sg s (CPutData f) = (RProtected, s).
+Proof. intros ag ug sg s f g Hr Hl Hp. simpl. rewrite Hr, Hl, Hp. reflexivity. Qed.
 
 (* a chain of writable derived fields of any depth, each defined in any fragment, still lands in the RAW leaf's fragment *)
 Fixpoint chain (frags : list nat) (leaf : field) : field :=
@@ -103,19 +107,19 @@ Fixpoint chain (frags : list nat) (leaf : field) : field :=
 Lemma put_leaf_chain : forall frags g, put_leaf (chain frags (FRaw g)) = Some g.
 Proof. induction frags as [|h r IH]; intros g; simpl; auto. Qed.
 
-Lemma chain_write_refused : forall ag ug s frags g, rw s = true -> p_dat (prot_of s g) = true ->
-  exec ag ug s (CPutData (chain frags (FRaw g))) = (RProtected, s).
+Lemma chain_write_refused : forall ag ug sg s frags g, rw s = true -> p_dat (prot_of s g) = true ->
+  exec ag ug sg s (CPutData (chain frags (FRaw g))) = (RProtected, s).
 Proof. intros. eapply refused_when_protected_put; eauto. apply put_leaf_chain. Qed.
 
 (* without the guards both statements fail *)
 Definition s_ro : st := mkSt false [mkProt false false; mkProt false false] [0; 0] [0; 0].
 Definition s_pf : st := mkSt true [mkProt true false; mkProt false false] [0; 0] [0; 0].
 
-Lemma rdonly_inert_refuted_unguarded : exists s c, rw s = false /\ exec false true s c <> (RAccMode, s).
+Lemma rdonly_inert_refuted_unguarded : exists s c, rw s = false /\ exec false true true s c <> (RAccMode, s).
 Proof. exists s_ro, (CAffix 1 0). split; [reflexivity|]. vm_compute. discriminate. Qed.
 
 Lemma protect_respected_refuted_unguarded :
-  exists s c, is_protect_call c = false /\ ~ unchanged_protected s (snd (exec false true s c)).
+  exists s c, is_protect_call c = false /\ ~ unchanged_protected s (snd (exec false true true s c)).
 Proof.
   exists s_pf, (CAffix 1 0). split; [reflexivity|].
   intros [Hm _]. specialize (Hm 0 eq_refl). vm_compute in Hm. discriminate.
@@ -123,7 +127,7 @@ Qed.
 
 (* gd_rename with GD_REN_UPDB as it is: a field of unprotected fragment 1 used by a field of format-protected fragment 0 *)
 Lemma protect_respected_refuted_updb :
-  exists s c, is_protect_call c = false /\ is_affix_call c = false /\ ~ unchanged_protected s (snd (exec true false s c)).
+  exists s c, is_protect_call c = false /\ is_affix_call c = false /\ ~ unchanged_protected s (snd (exec true false true s c)).
 Proof.
   exists s_pf, (CRenameUpdb 1 [0]). split; [reflexivity|]. split; [reflexivity|].
   intros [Hm _]. specialize (Hm 0 eq_refl). vm_compute in Hm. discriminate.
@@ -136,8 +140,12 @@ Proof. split; left; reflexivity. Qed.
 Lemma gen_affix_guarded_true : gen_affix_guarded = true.
 Proof. vm_compute. reflexivity. Qed.
 
-Lemma rdonly_inert_gen : forall s c, rw s = false -> gen_exec s c = (RAccMode, s).
-Proof. intros s c H. apply rdonly_inert_l; [exact H|right; exact gen_affix_guarded_true]. Qed.
+Lemma rdonly_inert_gen : forall s c, rw s = false -> is_seekw_call c = false -> gen_exec s c = (RAccMode, s).
+Proof. intros s c H Hs. apply rdonly_inert_l; [exact H|right; exact gen_affix_guarded_true|left; exact Hs]. Qed.
+
+(* the write-mode seek as it is: succeeds through a read-only handle and touches the RAW leaf's data file *)
+Lemma rdonly_inert_refuted_seekw : exists s c, rw s = false /\ exec true true false s c <> (RAccMode, s).
+Proof. exists s_ro, (CSeekWrite (FRaw 0)). split; [reflexivity|]. vm_compute. discriminate. Qed.
 
 Lemma protect_respected_gen : forall s c, is_protect_call c = false -> is_updb_call c = false ->
   unchanged_protected s (snd (gen_exec s c)).
